@@ -379,13 +379,18 @@ impl Child {
     /// exited with. This function will consume the child. To get the output,
     /// either take `stdout` and `stderr` out before calling it, or call
     /// [`Child::wait_with_output`].
-    pub async fn wait(self) -> io::Result<process::ExitStatus> {
+    pub async fn wait(mut self) -> io::Result<process::ExitStatus> {
+        // Close the child's stdin first, as `std` does: a child that reads its
+        // input to the end would otherwise never exit.
+        drop(self.stdin.take());
         sys::child_wait(self.child).await
     }
 
     /// Simultaneously waits for the child to exit and collect all remaining
     /// output on the stdout/stderr handles, returning an Output instance.
     pub async fn wait_with_output(mut self) -> io::Result<process::Output> {
+        // Close the child's stdin first, as `std` does.
+        drop(self.stdin.take());
         let status = sys::child_wait(self.child);
         let stdout = if let Some(stdout) = &mut self.stdout {
             Either::Left(stdout.read_to_end(vec![]))
